@@ -715,9 +715,96 @@ func vC19Counts(m *dns.Msg) (string, bool) {
 	return "[" + strings.Join(s, "; ") + "]", any
 }
 
+// the witnesses of Properties.no_ecs_to_client_refuted and badvers_reply_reflects_ecs_refuted,
+// replayed on the real code on every run
+func vC19EdnsReplays(tr *vC19Trace) {
+	// (1) downstream response with two OPT records, the first carrying a subnet option
+	{
+		e := New(&config.Config{})
+		req := new(dns.Msg)
+		req.SetQuestion("www.example.org.", dns.TypeA)
+		req.SetEdns0(1232, false)
+		for _, big := range []bool{false, true} {
+			w := &vC19Writer{proto: "udp", remote: net.IP{198, 51, 100, 9}}
+			q := req.Copy()
+			if big {
+				q.IsEdns0().SetUDPSize(512)
+			}
+			next := middleware.HandlerFunc(func(ctx context.Context, ch *middleware.Chain) {
+				resp := new(dns.Msg)
+				resp.SetReply(ch.Request.Msg())
+				if big {
+					for i := 0; i < 60; i++ {
+						resp.Answer = append(resp.Answer, &dns.TXT{Hdr: dns.RR_Header{Name: "www.example.org.", Rrtype: dns.TypeTXT, Class: dns.ClassINET, Ttl: 60}, Txt: []string{fmt.Sprintf("record-%d-xxxxxxxxxxxxxxxx", i)}})
+					}
+				}
+				o1 := &dns.OPT{Hdr: dns.RR_Header{Name: ".", Rrtype: dns.TypeOPT}}
+				o1.SetUDPSize(1232)
+				o1.Option = []dns.EDNS0{&dns.EDNS0_SUBNET{Code: dns.EDNS0SUBNET, Family: 1, SourceNetmask: 24, SourceScope: 24, Address: net.IP{203, 0, 113, 0}}}
+				o2 := &dns.OPT{Hdr: dns.RR_Header{Name: ".", Rrtype: dns.TypeOPT}}
+				o2.SetUDPSize(1232)
+				resp.Extra = []dns.RR{o1, o2}
+				_ = ch.Writer.WriteMsg(resp)
+				ch.Cancel()
+			})
+			ch := middleware.NewChain([]middleware.Handler{e, next})
+			ch.Reset(w, q)
+			ch.Next(context.Background())
+			if w.msg == nil {
+				continue
+			}
+			counts, leaked := vC19Counts(w.msg)
+			goFail, fkey := "", ""
+			if leaked {
+				goFail, fkey = "client reply carries a subnet option", "multi-opt-response-ecs"
+			}
+			var rdesc []string
+			for _, rr := range w.msg.Extra {
+				rdesc = append(rdesc, rr.String())
+			}
+			tr.emit(map[string]any{"k": "replay-two-opt-reply", "coq": fmt.Sprintf("CaseEdnsReply false %s [[OEcs (mk_ecs 1 24 24 (mk_ipb 4 3405803776))]; []] %s", vC19Bool(w.msg.Truncated), counts),
+				"go_fail": goFail, "fkey": fkey, "nontrivial": true, "desc": map[string]any{"reply_extra": rdesc, "truncated": w.msg.Truncated}})
+		}
+	}
+	// (2) EDNS version 1 with a subnet option, forwarding enabled for everyone
+	{
+		b := vC19BuildArgs{enabled: true}
+		cfg := &config.Config{}
+		cfg.ECS = config.ECSConfig{Enabled: true}
+		e := New(cfg)
+		req := new(dns.Msg)
+		req.SetQuestion("www.example.org.", dns.TypeA)
+		o := &dns.OPT{Hdr: dns.RR_Header{Name: ".", Rrtype: dns.TypeOPT}}
+		o.SetUDPSize(1232)
+		o.SetVersion(1)
+		o.Option = []dns.EDNS0{&dns.EDNS0_SUBNET{Code: dns.EDNS0SUBNET, Family: 1, SourceNetmask: 32, Address: net.IP{203, 0, 113, 77}}}
+		req.Extra = []dns.RR{o}
+		extraIn := vC19Extra(req.Extra)
+		remote := net.IP{203, 0, 113, 77}
+		w := &vC19Writer{proto: "udp", remote: remote}
+		ch := middleware.NewChain([]middleware.Handler{e, middleware.HandlerFunc(func(ctx context.Context, ch *middleware.Chain) {})})
+		ch.Reset(w, req)
+		ch.Next(context.Background())
+		if w.msg != nil {
+			counts, leaked := vC19Counts(w.msg)
+			goFail, fkey := "", ""
+			if leaked {
+				goFail, fkey = "BADVERS reply carries a subnet option", "badvers-ecs-reflected"
+			}
+			var rdesc []string
+			for _, rr := range w.msg.Extra {
+				rdesc = append(rdesc, rr.String())
+			}
+			tr.emit(map[string]any{"k": "replay-badvers-reply", "coq": fmt.Sprintf("CaseEdnsBadvers %s %s %s %s", b.coq(), vC19Bytes(remote), extraIn, counts),
+				"go_fail": goFail, "fkey": fkey, "nontrivial": true, "desc": map[string]any{"rcode": w.msg.Rcode, "reply_extra": rdesc}})
+		}
+	}
+}
+
 func TestVerifC19Edns(t *testing.T) {
 	tr := vC19Open(t)
 	defer tr.f.Close()
+	vC19EdnsReplays(tr)
 	r := rand.New(rand.NewSource(int64(vC19EnvInt("VERIF_SEED", 1))))
 	n := vC19EnvInt("VERIF_N", 1200)
 	for c := 0; c < n; c++ {
